@@ -168,9 +168,9 @@ class NumKernel(BaseKernel):
             return self.draws[name]
         if name in self.point:
             v = self.point[name]
-        elif self.given:
-            # a witness that does not mention the symbol (e.g. solver model without it): default draw
-            v = sampler()
+        elif self.given and self.point:
+            # a solver model that does not mention the symbol: model completion (any value works for the solver; take 0)
+            v = 0.0
         else:
             v = sampler()
         self.draws[name] = v
